@@ -602,6 +602,7 @@ pub open spec fn cxor(c: CE, b: bool) -> CE { CE { neg: c.neg != b, node: c.node
 pub open spec fn ntop(n: CN) -> int { match n { CN::One => u32::MAX as int, CN::Inner(l, _, _) => l as int } }
 pub open spec fn ctop(c: CE) -> int { ntop(c.node) }
 /// C03 for complement-edge diagrams: ordered, no redundant node (the two child EDGES differ), then-edge uncomplemented
+#[verifier::opaque]
 pub open spec fn nwf(n: CN) -> bool decreases n {
     match n {
         CN::One => true,
@@ -609,6 +610,7 @@ pub open spec fn nwf(n: CN) -> bool decreases n {
     }
 }
 pub open spec fn cwf(c: CE) -> bool { nwf(c.node) }
+#[verifier::opaque]
 pub open spec fn nbelow(n: CN, m: int) -> bool decreases n {
     match n {
         CN::One => true,
@@ -619,6 +621,7 @@ pub open spec fn cbelow(c: CE, m: int) -> bool { nbelow(c.node, m) }
 /// the edge is a legal diagram of a manager with `n` levels
 pub open spec fn okc(c: CE, n: int) -> bool { nwf(c.node) && nbelow(c.node, n) }
 /// expansion of a node to a plain BDD under the accumulated polarity `p` (complement marks pushed to the leaves)
+#[verifier::opaque]
 pub open spec fn nx(n: CN, p: bool) -> Tree decreases n {
     match n {
         CN::One => Tree::Leaf(!p),
@@ -640,16 +643,26 @@ pub open spec fn semc(c: CE, env: Env) -> bool { c.neg != sem(nx(c.node, false),
 pub open spec fn vsv(c: CE) -> Tree { nx(c.node, false) }
 
 pub broadcast proof fn lemma_nx_nmk(l: u32, t: CE, e: CE, p: bool)
-    ensures #[trigger] nx(nmk(l, t, e), p) == mk(l, nx(t.node, p != t.neg), nx(e.node, p != e.neg)) {}
+    ensures #[trigger] nx(nmk(l, t, e), p) == mk(l, nx(t.node, p != t.neg), nx(e.node, p != e.neg))
+{
+    reveal_with_fuel(nx, 2); reveal_with_fuel(nwf, 2); reveal_with_fuel(nbelow, 2);
+}
 pub broadcast proof fn lemma_nwf_nmk(l: u32, t: CE, e: CE)
-    ensures #[trigger] nwf(nmk(l, t, e)) == (l < u32::MAX && !t.neg && t != e && (l as int) < ntop(t.node) && (l as int) < ntop(e.node) && nwf(t.node) && nwf(e.node)) {}
+    ensures #[trigger] nwf(nmk(l, t, e)) == (l < u32::MAX && !t.neg && t != e && (l as int) < ntop(t.node) && (l as int) < ntop(e.node) && nwf(t.node) && nwf(e.node))
+{
+    reveal_with_fuel(nx, 2); reveal_with_fuel(nwf, 2); reveal_with_fuel(nbelow, 2);
+}
 pub broadcast proof fn lemma_nbelow_nmk(l: u32, t: CE, e: CE, m: int)
-    ensures #[trigger] nbelow(nmk(l, t, e), m) == ((l as int) < m && nbelow(t.node, m) && nbelow(e.node, m)) {}
+    ensures #[trigger] nbelow(nmk(l, t, e), m) == ((l as int) < m && nbelow(t.node, m) && nbelow(e.node, m))
+{
+    reveal_with_fuel(nx, 2); reveal_with_fuel(nwf, 2); reveal_with_fuel(nbelow, 2);
+}
 /// complementing an edge complements the function
 pub broadcast proof fn lemma_sem_nx(n: CN, p: bool, env: Env)
     ensures #[trigger] sem(nx(n, p), env) == (p != sem(nx(n, false), env)),
     decreases n,
 {
+    reveal_with_fuel(nx, 2); reveal_with_fuel(nwf, 2); reveal_with_fuel(nbelow, 2);
     match n {
         CN::One => {}
         CN::Inner(l, t, e) => {
@@ -665,6 +678,7 @@ pub proof fn lemma_atl(n: CN, q: bool)
     ensures atl(nx(n, q)) == !q,
     decreases n,
 {
+    reveal_with_fuel(nx, 2); reveal_with_fuel(nwf, 2); reveal_with_fuel(nbelow, 2);
     match n { CN::One => {} CN::Inner(l, t, e) => { lemma_atl(t.node, q); } }
 }
 /// the expansion is injective on normal forms: this is what makes "then-edge uncomplemented" a canonical form
@@ -674,6 +688,7 @@ pub proof fn lemma_nx_inj(a: CN, b: CN, q: bool)
     ensures a == b,
     decreases a,
 {
+    reveal_with_fuel(nx, 2); reveal_with_fuel(nwf, 2); reveal_with_fuel(nbelow, 2);
     match (a, b) {
         (CN::Inner(l1, t1, e1), CN::Inner(l2, t2, e2)) => {
             lemma_nx_inj(t1.node, t2.node, q);
@@ -688,6 +703,7 @@ pub proof fn lemma_nwf_wf_rec(n: CN, p: bool)
     ensures wf(nx(n, p)), top(nx(n, p)) == ntop(n),
     decreases n,
 {
+    reveal_with_fuel(nx, 2); reveal_with_fuel(nwf, 2); reveal_with_fuel(nbelow, 2);
     match n {
         CN::One => {}
         CN::Inner(l, t, e) => {
@@ -706,12 +722,15 @@ pub broadcast proof fn lemma_nwf_wf(n: CN, p: bool)
 { lemma_nwf_wf_rec(n, p); }
 pub broadcast proof fn lemma_nx_top(n: CN, p: bool)
     ensures top(#[trigger] nx(n, p)) == ntop(n), (nx(n, p) is Leaf) == (n is One), (nx(n, p) == Tree::Leaf(false)) == (n is One && p), (nx(n, p) == Tree::Leaf(true)) == (n is One && !p),
-{}
+{
+    reveal_with_fuel(nx, 2); reveal_with_fuel(nwf, 2); reveal_with_fuel(nbelow, 2);
+}
 pub broadcast proof fn lemma_nbelow_below(n: CN, p: bool, m: int)
     requires nbelow(n, m),
     ensures #[trigger] below(nx(n, p), m),
     decreases n,
 {
+    reveal_with_fuel(nx, 2); reveal_with_fuel(nwf, 2); reveal_with_fuel(nbelow, 2);
     match n { CN::One => {} CN::Inner(l, t, e) => { lemma_nbelow_below(t.node, p != t.neg, m); lemma_nbelow_below(e.node, p != e.neg, m); } }
 }
 /// different nodes of normal-form diagrams denote different BDDs (contrapositive of `lemma_nx_inj`)
@@ -730,10 +749,22 @@ pub proof fn lemma_semc(c: CE, env: Env)
 /// Shannon expansion at the level of `semc`: the tag-free core of a node is the if-then-else of its two child EDGES
 pub broadcast proof fn lemma_bsem_nmk(l: u32, t: CE, e: CE, env: Env)
     ensures #[trigger] sem(nx(nmk(l, t, e), false), env) == (if env(l as int) { semc(t, env) } else { semc(e, env) }),
-{ lemma_sem_nx(t.node, false != t.neg, env); lemma_sem_nx(e.node, false != e.neg, env); }
+{ reveal_with_fuel(nx, 2); reveal_with_fuel(nwf, 2); reveal_with_fuel(nbelow, 2); lemma_sem_nx(t.node, false != t.neg, env); lemma_sem_nx(e.node, false != e.neg, env); }
 /// what the apply algorithms need: one unfolding step of each recursive spec function over `nmk` (no polarity-carrying
 /// `nx(n, p)` terms arise from these)
-pub broadcast group ce_core { lemma_bsem_nmk, lemma_nwf_nmk, lemma_nbelow_nmk }
+pub broadcast proof fn lemma_bsem_one(n: CN, env: Env)
+    requires n is One,
+    ensures #[trigger] sem(nx(n, false), env) == true,
+{ reveal_with_fuel(nx, 1); }
+pub broadcast proof fn lemma_nwf_one(n: CN)
+    requires n is One,
+    ensures #[trigger] nwf(n),
+{ reveal_with_fuel(nwf, 1); }
+pub broadcast proof fn lemma_nbelow_one(n: CN, m: int)
+    requires n is One,
+    ensures #[trigger] nbelow(n, m),
+{ reveal_with_fuel(nbelow, 1); }
+pub broadcast group ce_core { lemma_bsem_nmk, lemma_nwf_nmk, lemma_nbelow_nmk, lemma_bsem_one, lemma_nwf_one, lemma_nbelow_one }
 /// link to the plain-BDD lemma libraries (complementation, wf / top / below of the expansion)
 pub broadcast group ce_tree { lemma_sem_mk, lemma_nx_nmk, lemma_sem_nx, lemma_wf_mk, lemma_below_mk, lemma_nwf_wf, lemma_nx_top }
 pub broadcast group ce_inj_lemmas { lemma_nx_neq, lemma_nx_pol }
@@ -827,6 +858,7 @@ pub proof fn add_vars_rec(c: CN, p: bool, n: int, e1: Env, e2: Env)
     ensures sem(nx(c, p), e1) == sem(nx(c, p), e2), forall|m: int| m >= n ==> #[trigger] nbelow(c, m),
     decreases c,
 {
+    reveal_with_fuel(nx, 2); reveal_with_fuel(nwf, 2); reveal_with_fuel(nbelow, 2);
     match c {
         CN::One => {}
         CN::Inner(l, t, e) => {
@@ -1127,12 +1159,17 @@ pub open spec fn cpopped(c: CE, until: int) -> CE decreases c {
         CN::Inner(l, t, _) => if (l as int) >= until { c } else { cpopped(*t, until) },
     }
 }
-//@fn file=crates/oxidd-rules-bdd/src/lib.rs path=fn:set_pop ret=r props=C04,C13
+mod lib_rs {
+use super::*;
+broadcast use ce_core;
+//@fn file=crates/oxidd-rules-bdd/src/lib.rs path=fn:set_pop ret=r props=C04,C13 vis=pub
 //@spec
     requires cwf(set.cv()),
     ensures r.cv() == cpopped(set.cv(), until as int),
     decreases set.cv(),
 //@end
+}
+pub use lib_rs::set_pop;
 // ---------- units: crates/oxidd-rules-bdd/src/complement_edge/mod.rs ----------
 mod complement_edge {
 use super::*;
@@ -1394,7 +1431,7 @@ where M: Manager<EdgeTag = EdgeTag, Terminal = BCDDTerminal> + HasApplyCache<M, 
 //@spec
     requires cwf(edge.cv()),
     ensures r == (complement != semc(edge.cv(), |l: int| !choices.spec_contains(l))),
-    decreases edge.cv(),
+    decreases u32::MAX as int - ctop(edge.cv()),
 //@end
 } // mod apply_rec
 } // mod complement_edge
